@@ -567,6 +567,59 @@ func monC07(c *drv.Ctx) {
 
 	// (2b3) values that contain pointers (strings, structs with a string and a pointer) and that ONLY the map
 	// references after the load: they must survive collections and heap reuse (an item table the collector does
+	// (2d) one instance reloaded more often than any 16-bit counter holds (a configuration map refreshed for months):
+	// the content after the last load is what that load gave it
+	c.Stage("many-reloads", 2, true, func(cs *drv.Case) {
+		r := cs.R
+		k1 := genKeys(r, 60)
+		w1 := map[string]int{}
+		s1 := map[string]string{}
+		v1 := make([]int, len(k1))
+		sv1 := make([]string, len(k1))
+		for i, k := range k1 {
+			v1[i], sv1[i] = i+1, fmt.Sprint("v", i)
+			w1[k], s1[k] = v1[i], sv1[i]
+		}
+		im := strmap.New[int]()
+		sm := strmap.NewStr2Str()
+		if im.LoadFromSlice(k1, v1) != nil || sm.LoadFromSlice(k1, sv1) != nil {
+			cs.Fail("strmap-load-error", nil, M{"phase": "first load"})
+			return
+		}
+		n := 65536 + 10
+		if cs.Idx == 1 {
+			n = 2*65536 + 3
+		}
+		one := []string{"k"}
+		for i := 0; i < n-2; i++ {
+			one[0] = "k" + fmt.Sprint(i%7)
+			if im.LoadFromSlice(one, []int{i}) != nil || sm.LoadFromSlice(one, []string{"x"}) != nil {
+				cs.Fail("strmap-load-error", nil, M{"phase": "reload", "reload": i})
+				return
+			}
+		}
+		k2 := genKeys(r, 60)
+		w2 := map[string]int{}
+		s2 := map[string]string{}
+		v2 := make([]int, len(k2))
+		sv2 := make([]string, len(k2))
+		for i, k := range k2 {
+			v2[i], sv2[i] = 1000+i, fmt.Sprint("w", i)
+			w2[k], s2[k] = v2[i], sv2[i]
+		}
+		if im.LoadFromSlice(k2, v2) != nil || sm.LoadFromSlice(k2, sv2) != nil {
+			cs.Fail("strmap-load-error", nil, M{"phase": "last load"})
+			return
+		}
+		probes := append(append(probesFor(r, k2), k1...), "k0", "k3", "k")
+		cs.Desc = M{"loads_on_one_instance": n}
+		if !c07CheckInt(cs, im, w2, probes, fmt.Sprintf("after %d loads on one instance", n)) || !c07CheckS2S(cs, sm, s2, probes, fmt.Sprintf("after %d loads on one instance", n)) {
+			return
+		}
+		cs.Count(true, "manyreloads", cs.Idx)
+		cs.C.Obs("instances reloaded more than 65536 times", 1)
+	})
+
 	// not scan would let them be freed under the map)
 	c.Stage("pointer-values-survive-gc", c.Pick(24, 240), false, func(cs *drv.Case) {
 		r := cs.R
